@@ -103,12 +103,18 @@ pub fn check_raw_action(rules: &[Value], sampling_override: Option<bool>) -> Res
     check_built_action(Action::from_routes_rule(routes, &request, None))
 }
 
+/// values whose edges only appear after substitution (the variable `hv` of every hostile rule expands to "")
+const SUBSTITUTED: &[&str] = &["Bearer @hv", "@hv x", " @hv", "@hv", "a @hv b"];
+
 const HOSTILE: &[&str] = &[
     "", " ", "x", "\u{e9}t\u{e9}", "\"q\" \\ back", "nul\u{0}byte", "line\nbreak\ttab\r", "<b>&amp;</b>", "@marker and @a", "\u{1F600}\u{200d}", "\u{7f}\u{1b}[0m",
     "%C3%A9+%20", "{\"json\": [1, null]}", "0", "null", "true",
 ];
 
 fn hostile(rng: &mut Rng) -> String {
+    if rng.chance(1, 10) {
+        return rng.pick(SUBSTITUTED).to_string();
+    }
     if rng.chance(1, 24) {
         return "long-".repeat(rng.range(40, 400));
     }
@@ -210,6 +216,8 @@ pub fn hostile_rule(rng: &mut Rng, i: usize) -> Value {
             .collect();
         rule.insert("body_filters".into(), json!(list));
     }
+    // a request-header variable whose header is absent and whose default is empty: "@hv" expands to ""
+    rule.insert("variables".into(), json!([{"name": "hv", "type": {"request_header": {"name": "x-absent-header", "default": ""}}}]));
     if rng.chance(1, 3) {
         rule.insert("log_override".into(), json!(rng.coin()));
     }
@@ -304,6 +312,28 @@ pub fn check_request(world: &World, q: &ReqSpec) -> Result<bool, String> {
         let j2 = serde_json::to_string(&restored).map_err(|e| e.to_string())?;
         if j2 != j {
             return Err(format!("request: ser(de(ser(q))) != ser(q):\n  {j}\n  {j2}"));
+        }
+        // field by field: every public field of a request can be told apart by some rule (exact host / scheme /
+        // method rules, header conditions, ip ranges, date-time boundaries with sub-second precision), so
+        // "matches the same rules, whatever the rules" means the fields come back as they were
+        {
+            let pq = |r: &Request| serde_json::to_string(&r.path_and_query_skipped).unwrap_or_default();
+            let hs = |r: &Request| r.headers.iter().map(|h| (h.name.clone(), h.value.clone())).collect::<Vec<_>>();
+            if pq(&request) != pq(&restored)
+                || request.path_and_query != restored.path_and_query
+                || request.host != restored.host
+                || request.scheme != restored.scheme
+                || request.method != restored.method
+                || hs(&request) != hs(&restored)
+                || request.remote_addr != restored.remote_addr
+                || request.created_at != restored.created_at
+                || request.sampling_override != restored.sampling_override
+            {
+                return Err(format!(
+                    "a field of the request changed in the JSON round trip: created_at {:?} -> {:?}, remote_addr {:?} -> {:?}, host {:?} -> {:?}, scheme {:?} -> {:?}, method {:?} -> {:?}; json {j}",
+                    request.created_at, restored.created_at, request.remote_addr, restored.remote_addr, request.host, restored.host, request.scheme, restored.scheme, request.method, restored.method
+                ));
+            }
         }
         let matched = router.match_request(&request);
         let before = ids_of(&matched);
